@@ -473,8 +473,11 @@ class Savable:
 
     @classmethod
     def auto_persist(cls, *members: str) -> None:
-        if cls._auto_persist is None:
-            cls._auto_persist = set()
+        if '_auto_persist' not in cls.__dict__:
+            # The class gets a set of its own: adding to the one it inherits would declare the members for the base class
+            # and for every other class derived from it as well
+            cls._auto_persist = set(cls._auto_persist or ())
+        assert cls._auto_persist is not None  # required for type checking
         cls._auto_persist.update(members)
 
     @classmethod
